@@ -372,6 +372,7 @@ class Frag:
         self.vsigs = list(vsigs)        # names of virtual signals (single trace only)
         self.funcs = list(funcs)        # (name, arity)
         self.allow_at = allow_at
+        self.allow_scoped = True
         self.N = max(i['n'] for i in infos.values())
 
     def sig(self):
@@ -411,7 +412,7 @@ class Frag:
             return self.special()
         if r < 0.7 and self.vsigs:
             return self.rng.choice(self.vsigs)
-        if r < 0.8:
+        if r < 0.8 and self.allow_scoped:
             return self.scoped()
         return str(self.rng.randrange(0, 4))
 
